@@ -19,7 +19,11 @@ type Verdict struct {
 	Deviation string
 }
 
-const ModelBudget = 60000
+// Budgets (a check may lower them for its own run).
+var (
+	ModelBudget int64 = 60000
+	ImplBudget  int64 = DefaultBudget
+)
 
 // CompareModel runs query text on input through gojq and through the reference model.
 func CompareModel(src string, input any) Verdict {
@@ -71,7 +75,7 @@ func compareModelDev(q *gojq.Query, src string, input any, dev refjq.Deviation) 
 			o.CompErr = err
 			return
 		}
-		o = RunCode(code, univ.CopySpare(input), DefaultBudget)
+		o = RunCode(code, univ.CopySpare(input), ImplBudget)
 	}()
 	v.Impl = o
 	if o.Panic != "" {
